@@ -228,6 +228,9 @@ pub const CORPUS: &[(&str, &str)] = &[
         (global externref (global.get 1))
         (export "f" (func $f)) (export "g5" (global 7)) (export "g8" (global 10)))"#),
     ("start-local", r#"(module (func $a) (func $s (nop)) (start $s) (export "a" (func $a)) (export "s" (func $s)))"#),
+    ("start-small-before-big", r#"(module (import "e" "i" (func $i)) (func $init (export "init") (call $i))
+        (func $teardown (export "teardown") (call $i) (i32.const 1) (drop) (i32.const 2) (drop) (i32.const 3) (drop) (call $i))
+        (func $mid (export "mid") (i32.const 1) (drop)) (start $init))"#),
     ("start-import", r#"(module (import "e" "s" (func $s)) (func $a) (start $s) (export "a" (func $a)))"#),
     ("exports-order", r#"(module (func $a) (func $b (i32.const 1) (drop)) (memory 1) (global i32 (i32.const 0)) (table 1 funcref)
         (export "z" (func $b)) (export "y" (global 0)) (export "x" (func $a)) (export "w" (table 0)) (export "v" (memory 0)) (export "z2" (func $b)))"#),
